@@ -29,6 +29,26 @@ def rep1(rel, old, new, count=1):
     return edit
 
 
+def on_seed(sid, *edits):
+    """a seeded change of the corpus (seeded/<sid>/patch.diff, typically a behaviour-preserving refactoring) followed by
+    further edits: 'the refactored code, broken' / 'the refactored code, varied'"""
+    def edit(tree):
+        from .udiff import apply_patch
+        p = os.path.join(os.path.dirname(os.path.dirname(os.path.abspath(__file__))), "seeded", sid, "patch.diff")
+        if not os.path.exists(p):
+            return None
+        out = apply_patch(tree, open(p).read())
+        if out is None:
+            return None
+        for e in edits:
+            r = e(tree.with_overlay(out))
+            if r is None:
+                return None
+            out.update(r)
+        return out
+    return edit
+
+
 def multi(*edits):
     def edit(tree):
         out = {}
@@ -243,6 +263,10 @@ MUST_FIRE += [
               rep1(S + "tomography.py", "from .mub_circuits import get_mub_circuits\n", "from .mub_circuits import get_mub_circuits\nfrom .connectivity_support import is_connectivity_supported\n")), "early validation on the register size instead of the number of measured qubits"),
     ("m91", ["C11"], ["H1"], multi(rep1(S + "tomography.py", "    expectation_value: int = 0\n    total_count: int = 0\n    for result in circuit_result.results:", "    histogram = np.zeros(2**circuit_result.num_qubits)\n    for result in circuit_result.results:\n        histogram[result.bitstring] = result.count\n    expectation_value: int = 0\n    total_count: int = 0\n    for result in circuit_result.results:")), "outcome histogram filled by overwriting"),
     ("m92", ["C10", "C12"], ["W4"], rep1(S + "tomography.py", "            pauli = z_pauli.evolve(inverse_circuit, frame=\"s\") # evolve backwards through circuit\n            pauli.phase = 0\n\n            z_pauli = pauli.evolve(readout_circuit, frame=\"s\") # evolve back to get sign\n            assert z_pauli.phase == 2 or z_pauli.phase == 0\n\n            expectation_value = _compute_expectation_value(circuit_result, Bitstring(i))\n            expectation_values[pauli] = expectation_value * (1 if z_pauli.phase == 0 else -1)\n", "            pauli = z_pauli.evolve(inverse_circuit, frame=\"s\")\n            pauli.phase = 0\n            sign = 1 if pauli.phase == 0 else -1\n            expectation_value = _compute_expectation_value(circuit_result, Bitstring(i))\n            expectation_values[pauli] = expectation_value * sign\n"), "single-evolve form that reads the sign after the phase was reset"),
+    ("m93", ["C16"], ["K6"], on_seed("R7-c", rep1(S + "find_local_clifford_layer.py", "        if from_first_pair ^ from_second_pair == 0:", "        if from_first_pair | from_second_pair == 0:")), "helper-based search (R7-c) whose validity predicate accepts a selection from both pairs"),
+    ("m94", ["C16"], ["K6", "K9"], on_seed("R7-c", rep1(S + "find_local_clifford_layer.py", "    for coefficients in itertools.product([0, 1], repeat=basis.shape[0]):", "    for coefficients in list(itertools.product([0, 1], repeat=basis.shape[0]))[:-1]:")), "helper-based search (R7-c) whose span generator leaves out the sum of all kernel rows"),
+    ("m96", ["C16"], ["K9"], on_seed("R7-c", rep1(S + "find_local_clifford_layer.py", "    for coefficients in itertools.product([0, 1], repeat=basis.shape[0]):\n", "    for coefficients in itertools.product([0, 1], repeat=basis.shape[0]):\n        if len(coefficients) > 1 and all(coefficients):\n            continue\n")), "helper-based search (R7-c) whose span generator skips the sum of ALL kernel rows when there are several"),
+    ("m95", ["C19"], ["K12"], rep1(S + "graph.py", "    def compress(self) -> int:", "    def compress(self) -> int:\n        if getattr(self, \"_id\", None) is not None:\n            return self._id\n        self._id = self._compress()\n        return self._id\n\n    def _compress(self) -> int:"), "graph id remembered by the object and never invalidated"),
     ("m72", ["C13"], ["A3"], rep1(S + "circuit_lookup.py", "result.circuits = [circuit.copy() for circuit in self.circuits]", "result.circuits = list(self.circuits)"), "fresh list of the cached circuits"),
 ]
 
